@@ -70,6 +70,9 @@ Definition step (k : kind) (o : op) (s : cst) : cst * bool :=
   | KList, SetSliceIter i j vs =>
       let values := materialise (OneShot vs) s in   (* list(value) drains the iterator exactly once; stored, then recorded element by element *)
       ({| items := py_setslice i j values (items s); rec := rec s ++ values |}, false)
+  | KList, SetSliceView i j v =>
+      let values := view_apply v (items s) in       (* list(value) drains the lazy view before the list is touched *)
+      ({| items := py_setslice i j values (items s); rec := rec s ++ values |}, false)
   | KList, ExtendSelf =>
       let values := materialise LiveIt s in         (* list(items) with items the live list: a snapshot *)
       (fold_left (add_item KList) values s, false)
@@ -173,6 +176,12 @@ Definition cstep_old (o : cop) (s : cshared) : cshared :=
 Definition clone_init (vs0 : list elt) : cshared :=
   {| sitems := vs0; recs := fun w => match w with WP => vs0 | WQ => [] end; bound := WP |}.
 
+(* ---- outside the proved fragment (known finding C16-o): extend / += with a LAZY iterable that reads the field ------------------
+   MonitoredList.extend copies its argument first (`for item in list(items)`), so a generator such as
+   (v for v in cands if v not in x.f) is evaluated completely against the OLD contents. *)
+Definition extend_copy_first_new (cands : list elt) (s : cst) : cst :=
+  fold_left (add_item KList) (filter (fun c => negb (memb c (items s))) cands) s.
+
 From Krrood Require Import Base.Sx.
 Definition model_out (k : kind) (ops : list op) (vs0 : list elt) : sx :=
   let '(tr, fin) := run k ops (init k vs0) in SL [trace_sx tr; elts_sx (rec fin)].
@@ -186,3 +195,5 @@ Definition setitem_then_infer_out (i : Z) (x : elt) (inf l : list elt) : sx :=
 Definition clone_out (vs0 : list elt) (ops : list cop) : sx :=
   let s := fold_left (fun s o => cstep o s) ops (clone_init vs0) in
   SL [elts_sx (sitems s); elts_sx (recs s WP); elts_sx (recs s WQ)].
+Definition extend_lazy_out (cands vs0 : list elt) : sx := elts_sx (items (extend_copy_first_new cands (init KList vs0))).
+Definition extend_lazy_spec_out (cands vs0 : list elt) : sx := elts_sx (extend_lazy_new cands vs0).
